@@ -81,8 +81,8 @@ Proof. exact mismatched_length_rejected. Qed.
 (* ---- the golden contracts (finite tables; the domains are the committed tables of corr/C20_expected.v) --------- *)
 (* every array argument that a public callable documents REACHES a shape check of the callable or of the callee it
    hands the argument to.  This says "is mentioned by a constraining check", not "the accepted shapes are the
-   documented ones" -- that is the next theorem.  `not_modelled` (cv2_rodrigues dispatches on r.size; world_to_view's
-   `up` is rejected by vg.cross / np.array, not by a shape check) is excluded. *)
+   documented ones" -- that is the next theorem.  `not_modelled` (cv2_rodrigues dispatches on r.size) is excluded, and so is
+   the one pair of not_modelled_args (world_to_view's `up`, rejected by vg.cross / np.array, not by a shape check). *)
 Theorem C20_documented_arguments_are_checked :
   forallb (fun na : string * list string =>
              mem (fst na) not_modelled || forallb (covered all_contracts delegation (fst na)) (snd na))
@@ -95,7 +95,7 @@ Theorem C20_documented_argument_is_checked : forall name args a,
 Proof. exact documented_argument_is_checked. Qed.
 
 (* STRICTNESS PER CALLABLE, over a finite universe: for every registered array-taking callable (except forms_exempt:
-   the two not-modelled callables and the Rodrigues vector, a known finding) and EVERY joint assignment of the shapes
+   cv2_rodrigues, not modelled, and the Rodrigues vector, a known finding) and EVERY joint assignment of the shapes
    of M_shape.universe (None, a Python number, 22 / 10 / 7 array shapes for <= 3 / 4 / 5 array parameters) to all its
    array parameters, the effective contract -- own checks, then the delegates' -- accepts iff the shapes are one of the
    documented single / stacked forms (documented_forms, hand-written from the docstrings; minimum sizes omitted).
@@ -124,32 +124,50 @@ Theorem C20_contract_accepts_iff_symbolic_forms : forall b0 args cs,
   accepts cs args b0 = in_cforms b0 (forms_of_contract cs (senv_of b0)) args.
 Proof. exact accepts_iff_forms_init. Qed.
 
-(* 57 of the 88 registered array-taking callables (all_shapes_covered): no delegation, golden contract in normal form, and
+(* 58 of the 88 registered array-taking callables (all_shapes_covered): no delegation, golden contract in normal form, and
    the symbolic forms are -- as a set, decided by computation over the committed tables -- the canonical forms of the
-   documented forms.  For those, for ALL argument values: accepted iff the shapes are a documented form. *)
-Theorem C20_accepts_iff_documented_form_all_shapes : forall name fs args,
+   documented forms.  For those, for ALL argument values and ANY receiver length n (self.num_e, used by
+   Polyline.subdivided_by_length only): accepted iff the shapes are a documented form. *)
+Theorem C20_accepts_iff_documented_form_all_shapes : forall name fs n args,
   In (name, fs) documented_forms -> all_shapes_row (name, fs) = true ->
-  accepts_effective all_contracts delegation forms_b0 name args =
-  in_cforms forms_b0 (map (canon forms_ext) fs) args.
+  accepts_effective all_contracts delegation (b0_of n) name args =
+  in_cforms (b0_of n) (map (canon forms_ext) fs) args.
 Proof. exact all_shapes_strict. Qed.
 
 Theorem C20_all_shapes_covered_have_rows : forall name, In name all_shapes_covered ->
   exists fs, In (name, fs) documented_forms /\ all_shapes_row (name, fs) = true.
 Proof. exact all_shapes_row_of_covered. Qed.
 
-(* 20 further callables delegate (all_shapes_via_delegates): for ALL argument values, accepted iff the own symbolic
-   forms hold and, for every delegate, the WIRED arguments satisfy the symbolic forms of the callee's contract (which
-   are the callee's documented forms where the callee is itself covered, and do not depend on receiver lengths) *)
+(* 20 further callables delegate (all_shapes_via_delegates).  For them the all-shapes statement is in CONTRACT terms, not
+   yet in terms of the caller's documented forms: for ALL argument values, accepted iff the own symbolic forms hold and, for
+   every delegate, the WIRED arguments satisfy the symbolic forms of the callee's contract.  (That the caller's DOCUMENTED
+   forms are exactly that is proved for these 20 over the finite universe only, C20_contracts_accept_exactly_documented_forms;
+   the substitution of the wiring into the callee forms is not formalised.)  The two theorems after it say what the callee
+   forms are: independent of receiver lengths, and each callee is itself covered / external / a pass-through delegator. *)
 Theorem C20_delegating_accepts_iff_callee_forms_all_shapes : forall name args, delegating_row name = true ->
   accepts_effective all_contracts delegation forms_b0 name args =
   in_cforms forms_b0 (forms_of_contract (contract_of all_contracts name) (senv_of forms_b0)) args &&
   deleg_forms_ok (delegates_list name) args.
 Proof. exact all_shapes_delegating. Qed.
 
-(* coverage, pinned: 57 + 20 of 88; the 11 outside (CheckSame / NeedsShape / CheckFlat contracts, their delegators, and the
-   two not-modelled callables) keep the finite-universe theorem above *)
+Theorem C20_callee_forms_env_independent :
+  forallb (fun name => forallb (fun d =>
+     if list_eq_dec cform_eq_dec (forms_of_contract (contract_of all_contracts (callee d)) [])
+                                 (forms_of_contract (contract_of all_contracts (callee d)) (senv_of forms_b0))
+     then true else false) (delegates_list name)) all_shapes_via_delegates = true.
+Proof. exact callee_forms_env_independent. Qed.
+
+Theorem C20_delegate_callees_are_covered_external_or_passthrough :
+  forallb (fun name => forallb callee_status_ok (delegates_list name)) all_shapes_via_delegates = true.
+Proof. exact delegate_callees_status. Qed.
+
+(* coverage, pinned.  Of the 88 registered array-taking callables: 58 have "accepted iff a documented form" for ALL shapes;
+   20 (delegating) have it for all shapes in contract terms and against the documented forms over the finite universe; the
+   10 outside (CheckSame / NeedsShape / CheckFlat contracts and their delegators, cv2_rodrigues) are: 8 finite universe
+   only, and 2 exempt even there (forms_exempt: the Rodrigues vector, refuted above; cv2_rodrigues, oracle only) *)
 Theorem C20_all_shapes_coverage :
-  (List.length all_shapes_covered, List.length all_shapes_via_delegates, List.length documented_forms) = (57, 20, 88)%nat /\
+  (List.length all_shapes_covered, List.length all_shapes_via_delegates, List.length documented_forms) = (58, 20, 88)%nat /\
+  List.length forms_exempt = 2%nat /\
   all_shapes_outside =
   ["polliwog.line._line_functions.coplanar_points_are_on_same_side_of_line";
    "polliwog.line._line_functions.project_point_to_line";
@@ -160,9 +178,8 @@ Theorem C20_all_shapes_coverage :
    "polliwog.transform._coordinate_manager.CoordinateManager.rotate";
    "polliwog.transform._rodrigues.cv2_rodrigues";
    "polliwog.transform._rodrigues.rodrigues_vector_to_rotation_matrix";
-   "polliwog.transform._viewing.world_to_view";
    "polliwog.tri.functions.tri_contains_coplanar_point"].
-Proof. exact (conj all_shapes_covered_count all_shapes_outside_list). Qed.
+Proof. exact (conj all_shapes_covered_count (conj eq_refl all_shapes_outside_list)). Qed.
 
 (* the canonical (positional) reading of the documented forms and their unification reading (in_forms, used by the
    finite-universe theorem) accept the same tuples of the universe *)
@@ -229,7 +246,7 @@ Proof. split; vm_compute; reflexivity. Qed.
    polliwog/polyline/_array.py (find_repeats, find_changes) are anchored in no other property; they are modelled in
    model/M_inflection.v / M_array.v (np.gradient exactly as NumPy computes it for non-uniform coordinates), tied by
    traced kernels at n = 4, 5 and by the correspondence kinds CInflection / CMaxAcc / CFind.  Theorems on the
-   real-number instance; the model's domain is strictly increasing run coordinates (no zero spacing), and
+   real-number instance; the model's domain is a strictly monotone run coordinate (either direction; no zero spacing), and
    point_of_max_acceleration is modelled with subdivide_by_length = None.
    ================================================================================================================== *)
 Local Open Scope R_scope.
@@ -247,8 +264,18 @@ Theorem C20_x_second_difference_of_affine_is_zero : forall a b xs i,
   nth_error (gradient ROps xs (gradient ROps xs (map (fun x => a * x + b) xs))) i = Some 0.
 Proof. exact second_difference_affine. Qed.
 
-(* every returned inflection point is an input row (not the last) whose second-difference product with its
-   successor is <= 0, and the rows come in increasing index order *)
+(* inflection_points on its domain (at least two points, run coordinate strictly monotone along the curve, in either
+   direction -- what np.gradient needs for non-zero spacings): the answer is EXACTLY the rows i (not the last) whose
+   second-difference product with the successor is <= 0 (soundness and completeness), in increasing index order *)
+Theorem C20_x_inflection_points_spec : forall pts rise run,
+  (2 <= List.length pts)%nat -> monotone_b ROps (coords ROps pts run) = true ->
+  exists idx, inflection_points ROps pts rise run = Ok (Some idx) /\ Sorted.StronglySorted lt idx /\
+    forall i, In i idx <->
+      ((S i < List.length pts)%nat /\
+       at_ ROps (fd2 ROps pts rise run) i * at_ ROps (fd2 ROps pts rise run) (S i) <= 0).
+Proof. exact inflection_points_spec. Qed.
+
+(* every returned row is an input row *)
 Theorem C20_x_inflection_points_sound : forall pts rise run idx,
   inflection_points ROps pts rise run = Ok (Some idx) ->
   Sorted.StronglySorted lt idx /\
@@ -256,6 +283,11 @@ Theorem C20_x_inflection_points_sound : forall pts rise run idx,
     (S i < List.length pts)%nat /\ (exists row, nth_error pts i = Some row) /\
     at_ ROps (fd2 ROps pts rise run) i * at_ ROps (fd2 ROps pts rise run) (S i) <= 0.
 Proof. exact inflection_points_sound. Qed.
+
+(* non-vacuity: a zig-zag (rise along y, run along x) is in the domain and row 1 is returned *)
+Example C20_x_inflection_points_inhabited : exists idx,
+  inflection_points ROps [V3 0 0 0; V3 1 1 0; V3 2 0 0; V3 3 1 0] (V3 0 1 0) (V3 1 0 0) = Ok (Some idx) /\ In 1%nat idx.
+Proof. exact zig_example. Qed.
 
 (* the result of point_of_max_acceleration is an input row with a true valid-mask entry (interior, both neighbouring
    first differences positive) and fd2 maximal among the valid rows *)
@@ -272,7 +304,7 @@ Theorem C20_x_valid_rows_are_interior : forall pts rise run i, is_valid pts rise
 Proof. exact valid_inside. Qed.
 
 Theorem C20_x_max_acceleration_none_iff_no_valid_row : forall pts rise run,
-  (2 <= List.length pts)%nat -> increasing_b ROps (coords ROps pts run) = true ->
+  (2 <= List.length pts)%nat -> monotone_b ROps (coords ROps pts run) = true ->
   (point_of_max_acceleration ROps pts rise run = Ok (Some None) <-> forall j, ~ is_valid pts rise run j).
 Proof. exact point_of_max_acceleration_none_iff. Qed.
 
@@ -314,10 +346,12 @@ Definition C20_all := (C20_match_pattern_spec, C20_check_any_first_match, C20_co
   C20_mismatched_length_rejected, C20_documented_arguments_are_checked, C20_documented_argument_is_checked,
   C20_contracts_accept_exactly_documented_forms, C20_contract_accepts_iff_documented_form, C20_no_single_shape_check_shape_any,
   C20_contract_accepts_iff_symbolic_forms, C20_accepts_iff_documented_form_all_shapes, C20_all_shapes_covered_have_rows,
-  C20_delegating_accepts_iff_callee_forms_all_shapes, C20_all_shapes_coverage, C20_canonical_forms_agree_on_universe,
+  C20_delegating_accepts_iff_callee_forms_all_shapes, C20_callee_forms_env_independent,
+  C20_delegate_callees_are_covered_external_or_passthrough, C20_all_shapes_coverage, C20_canonical_forms_agree_on_universe,
   C20_signed_distance_stacks_must_agree, C20_signed_distance_mismatch_is_ValueError,
   C20_closest_point_stacks_must_agree, C20_rodrigues_vector_strict_refuted,
-  C20_x_gradient_of_affine_is_slope, C20_x_second_difference_of_affine_is_zero, C20_x_inflection_points_sound,
+  C20_x_gradient_of_affine_is_slope, C20_x_second_difference_of_affine_is_zero, C20_x_inflection_points_spec,
+  C20_x_inflection_points_sound,
   C20_x_max_acceleration_sound, C20_x_valid_rows_are_interior, C20_x_max_acceleration_none_iff_no_valid_row,
   C20_x_too_few_points, C20_x_find_changes_is_negation, C20_x_find_length_preserved,
   C20_x_find_length_preserved_refuted).
